@@ -13,7 +13,10 @@ MANIFEST = dict(
          "unmodified entry of the input's dtype.descr or of the added descriptor (type, sub-array shape and byte order preserved); the "
          "iteration order that builds the descriptor is the documented one for each operation; data are copied by the per-name copier "
          "after allocation with (source, destination) in the right roles and the copier assigns every common name; each documented "
-         "rejection is a raise controlled by the matching test; the returned array is fresh (alias analysis: it shares no buffer with "
+         "rejection is a raise controlled by the matching test; the empty-selection rejection of extract/remove is reached on every way "
+         "to the allocation and is controlled by a test that depends on both the request and the array's field names (dependence "
+         "analysis of the raise guards); a field position looked up by name is never used as a found/not-found flag (position 0 is the "
+         "first field); the returned array is fresh (alias analysis: it shares no buffer with "
          "any argument).",
     note="Not decided: element-wise equality (numpy field assignment trusted), rejection of a shared name (delegated to numpy.dtype "
          "construction, a trusted idiom). remove_fields documents only scalar/list names; tuple/array name lists are an observation.",
@@ -27,7 +30,7 @@ NU = "esutil.numpy_util."
 # rules that keep their verdict however the code is laid out (decided on the symbolic values below and on the effect analysis);
 # every other rule of this check is a template rule (vcheck.core.Check.obt): it is evaluated on the same values but a mismatch
 # in a restructured function is "not recognised", not a violation
-SEMANTIC = ('R07.alloc', 'R07.args', 'R07.copier', 'R07.defaults', 'R07.fresh')
+SEMANTIC = ('R07.alloc', 'R07.args', 'R07.copier', 'R07.defaults', 'R07.fresh', 'R07.nonempty', 'R07.lookup')
 
 
 # --------------------------------------------------------------------------------------------------------------------
@@ -47,6 +50,9 @@ SEMANTIC = ('R07.alloc', 'R07.args', 'R07.copier', 'R07.defaults', 'R07.fresh')
 #                                    "for the iterations of `loops` that pass `guards`, in order, the element"
 #   ('NORM', term, mode, types)      a names argument after scalar wrapping (mode 'unless'/'when' isinstance, 'atleast_1d')
 #   ('ALLOC', n)                     the n-th array allocation
+#   ('IMAP', F) ('DICT', id)         a dict name -> position in F.names; a dict built locally (content: segments of (key, value))
+#   ('POSQ', F, term, default)       IMAP.get(term, default): the position of the field named `term`, or the default
+#   ('NIDX', F, term) ('FIRST', ('WIDX', F, term))   F.names.index(term) / np.where(names == term)[0][0]
 #
 # Everything else is an opaque term; nothing is guessed: a rule that does not find the terms it is about reports
 # "not recognised".
@@ -169,6 +175,9 @@ class _Interp:
         self.nalloc = 0
         self._pre = {}
         self._funcs = {}
+        self.postests = []        # (position-valued term, how it was tested, top-level statement): a field position used as a found/not-found flag
+        self.opaque = []          # calls of callees whose body was not followed (they may raise)
+        self.asserts = 0
 
     # -- driver ------------------------------------------------------------------------------------------------------
     def run(self):
@@ -259,6 +268,45 @@ class _Interp:
     def taint(self, lst, what):
         self.heap[lst[1]].append(_Seg((), (), ("TAINT", what)))
 
+    def newdict(self, st, segs=()):
+        d = self.newlist(st, segs)
+        return ("DICT", d[1])
+
+    def dictkind(self, t):
+        """a dict built locally whose content is `for every field of F in order: name -> position` is ('IMAP', F), `name -> descr entry`
+        is ('MAP', F); anything else stays what it is"""
+        if not (isinstance(t, tuple) and t and t[0] == "DICT"):
+            return t
+        segs = self.heap.get(t[1], [])
+        if len(segs) != 1 or len(segs[0].loops) != 1 or _filters(segs[0].guards):
+            return t
+        sg, lp = segs[0], segs[0].loops[0]
+        el = sg.elem
+        if el[0] != "TUPLE" or len(el) != 3 or el[1][0] != "NAME":
+            return t
+        F = el[1][1]
+        if el[1] != ("NAME", F, ("K", lp.id)) or not _in_order_over(lp, F):
+            return t
+        if el[2] == ("IDX", F, lp.id):
+            return ("IMAP", F)
+        if el[2] == ("ENTRY", F, ("K", lp.id)):
+            return ("MAP", F)
+        return t
+
+    def pairs_dict(self, a0, st):
+        """dict(<pairs>) / a dict comprehension: the dict of those pairs"""
+        if a0[0] == "ZIP" and len(a0) == 3 and a0[1][0] == "NAMES" and a0[2] == ("RANGE", a0[1][1]):
+            return ("IMAP", a0[1][1])
+        if a0[0] == "LIST":
+            segs = self.heap.get(a0[1], [])
+            if segs and all(s.elem[0] == "TUPLE" and len(s.elem) == 3 for s in segs):
+                return self.dictkind(self.newdict(st, segs))
+        return None
+
+    def postest(self, v, how):
+        if _is_position(v):
+            self.postests.append((v, how, self.site))
+
     # -- statements --------------------------------------------------------------------------------------------------
     def block(self, stmts, st):
         status = set()
@@ -306,6 +354,8 @@ class _Interp:
         if isinstance(s, ast.Break):
             return {BRK}
         if isinstance(s, (ast.Pass, ast.Import, ast.ImportFrom, ast.Global, ast.Nonlocal, ast.Assert)):
+            if isinstance(s, ast.Assert):
+                self.asserts += 1
             return {N_}
         if isinstance(s, ast.Delete):
             for t in s.targets:
@@ -345,6 +395,8 @@ class _Interp:
             key = ("X", "slice:" + norm(t.slice)) if isinstance(t.slice, ast.Slice) else self.ev(t.slice, st)
             if base[0] == "LIST":
                 self.taint(base, "item assignment")
+            elif base[0] == "DICT":
+                self.append(base, ("TUPLE", key, v), st)
             self.event("store", st, node, base=base, key=key, value=v)
         elif isinstance(t, ast.Attribute):
             self.event("attrstore", st, node, base=self.ev(t.value, st), attr=t.attr, value=v)
@@ -626,6 +678,17 @@ class _Interp:
             if isinstance(e, ast.Tuple):
                 return ("TUPLE",) + tuple(elems)
             return self.newlist(st, [_Seg((), (), x) for x in elems])
+        if isinstance(e, ast.Dict) and not e.keys:
+            return self.newdict(st)
+        if isinstance(e, ast.DictComp):
+            lst = self.newlist(st)
+
+            def dleaf(stc):
+                self.append(lst, ("TUPLE", self.ev(e.key, stc), self.ev(e.value, stc)), stc)
+                return {N_}
+            self.comp_iter(e.generators, st.child(own_vars=True), dleaf)
+            self.cur = st
+            return self.pairs_dict(lst, st) or ("X", norm(e))
         if isinstance(e, (ast.ListComp, ast.GeneratorExp, ast.SetComp)):
             lst = self.newlist(st)
 
@@ -700,6 +763,11 @@ class _Interp:
             return ("SLICE", b, norm(sl))
         k = self.ev(sl, st)
         h = b[0]
+        if h == "DICT":
+            b = self.dictkind(b)
+            h = b[0]
+        if h == "IMAP":
+            return ("NIDX", b[1], k)
         if k[0] == "IDXOF" and h not in ("DESCR", "NAMES", "MAP", "LIST"):
             return ("ELEM", b, k[1])          # the element at the position of that loop (sequences walked in step)
         if h == "DESCR":
@@ -707,7 +775,7 @@ class _Interp:
                 return ("ENTRY", b[1], ("K", k[2]))
             if k[0] == "FIRST" and k[1][0] == "WIDX" and k[1][1] == b[1]:
                 return ("ENTRY", b[1], ("N", k[1][2]))
-            if k[0] == "NIDX" and k[1] == b[1]:
+            if k[0] in ("NIDX", "POSQ") and k[1] == b[1]:
                 return ("ENTRY", b[1], ("N", k[2]))
         elif h == "NAMES":
             if k[0] == "IDX" and k[1] == b[1]:
@@ -753,6 +821,7 @@ class _Interp:
         return [(c, p)], [(c, not p)]
 
     def truth(self, v):
+        self.postest(v, "tested for truth")
         if v[0] in ("LEN",):
             return ("TRUE", v[1]), True
         if v[0] == "WSIZE":
@@ -764,8 +833,17 @@ class _Interp:
 
     def cmp(self, op, a, b):
         if isinstance(op, (ast.In, ast.NotIn)):
+            b = self.dictkind(b)
+            if b[0] == "IMAP":
+                b = ("NAMES", b[1])
             self.use(b)
             return ("IN", a, _members(b)), isinstance(op, ast.In)
+        # IMAP.get(name, <sentinel>) compared with its sentinel: membership in disguise
+        for x, y, o in ((a, b, op), (b, a, _MIRROR.get(type(op), type(op))())):
+            if x[0] == "POSQ":
+                r = _posq_test(x, y, o)
+                if r is not None:
+                    return ("IN", x[2], ("NAMES", x[1])), r
         if isinstance(op, (ast.Is, ast.IsNot)):
             if b == ("C", None) or a == ("C", None):
                 x = a if b == ("C", None) else b
@@ -781,6 +859,8 @@ class _Interp:
                     zero = True
                 elif y[1] == 0 and isinstance(o, (ast.NotEq, ast.Gt)) or y[1] == 1 and isinstance(o, ast.GtE):
                     zero = False
+                if zero is not None and not isinstance(o, (ast.Eq, ast.NotEq)):
+                    self.postest(x, "compared with `%s %s`" % (_OPTEXT.get(type(o), "?"), y[1]))
                 if zero is not None:
                     if x[0] == "MCALL" and x[1] == "count" and len(x[3]) == 1:
                         self.use(x[2])
@@ -840,6 +920,12 @@ class _Interp:
             return ("ENUM", a0)
         if nm == "dict" and len(args) == 1 and a0[0] == "ZIP" and a0[1][0] == "NAMES" and a0[2] == ("DESCR", a0[1][1]):
             return ("MAP", a0[1][1])
+        if nm == "dict" and isinstance(f, ast.Name) and not kws:
+            if not args:
+                return self.newdict(st)
+            d = self.pairs_dict(a0, st) if len(args) == 1 else None
+            if d is not None:
+                return d
         if nm in ("range", "xrange") and len(args) == 1:
             if a0[0] == "NF":
                 return ("RANGE", a0[1])
@@ -878,11 +964,19 @@ class _Interp:
                     return ("C", None)
             elif full not in self.stack and self.depth < 3 and callee is not self.root:
                 return self.inline(callee.node, callee.module, args, kws, st, qual=full)
+        if not is_np and not (isinstance(f, ast.Name) and f.id in _PURE_BUILTINS):
+            self.opaque.append((nm or "?", tuple(args) + tuple(kws.values()), st.guards, self.site))
         return ("CALL", nm or "?", tuple(args) + tuple(v for _, v in sorted(kws.items())))
 
     def method(self, c, recv, nm, st):
         args = [self.ev(a, st) for a in c.args if not isinstance(a, ast.Starred)]
         a0 = args[0] if args else None
+        recv = self.dictkind(recv)
+        if recv[0] == "IMAP":
+            if nm == "get" and len(args) in (1, 2) and not c.keywords:
+                return ("POSQ", recv[1], a0, args[1] if len(args) == 2 else ("C", None))
+            if nm == "keys" and not args:
+                return ("NAMES", recv[1])
         if recv[0] in ("LIST", "DESCR", "NAMES") and nm in ("append", "extend", "insert", "pop", "remove", "sort", "reverse", "clear", "add", "update", "discard"):
             lst = recv
             if recv[0] != "LIST":
@@ -972,6 +1066,51 @@ class _Interp:
 
 
 _MIRROR = {ast.Lt: ast.Gt, ast.Gt: ast.Lt, ast.LtE: ast.GtE, ast.GtE: ast.LtE}
+_OPTEXT = {ast.Lt: "<", ast.Gt: ">", ast.LtE: "<=", ast.GtE: ">=", ast.Eq: "==", ast.NotEq: "!="}
+_PURE_BUILTINS = {"len", "str", "repr", "int", "float", "bool", "sorted", "reversed", "min", "max", "sum", "any", "all", "isinstance", "type", "id", "hash",
+                  "print", "format", "abs", "range", "zip", "enumerate", "map", "filter", "set", "frozenset", "list", "tuple", "dict", "getattr", "hasattr",
+                  "ValueError", "TypeError", "KeyError", "IndexError", "RuntimeError", "Exception"}
+
+
+def _const_int(t):
+    if t[0] == "C" and isinstance(t[1], int) and not isinstance(t[1], bool):
+        return t[1]
+    if t[0] == "UN" and t[1] == "USub" and t[2][0] == "C" and isinstance(t[2][1], int) and not isinstance(t[2][1], bool):
+        return -t[2][1]
+    return None
+
+
+def _posq_test(x, y, o):
+    """`IMAP.get(name, d) <o> y` as a membership test of name: True 'found', False 'not found', None when it is not one"""
+    d = x[3]
+    if d == ("C", None):
+        if y == ("C", None) and isinstance(o, (ast.Is, ast.IsNot, ast.Eq, ast.NotEq)):
+            return isinstance(o, (ast.IsNot, ast.NotEq))
+        return None
+    dv, yv = _const_int(d), _const_int(y)
+    if dv is None or yv is None or dv >= 0:
+        return None
+    # the sentinel is a negative number, positions are 0, 1, ...
+    if yv == dv and isinstance(o, (ast.Eq, ast.NotEq)):
+        return isinstance(o, ast.NotEq)
+    if isinstance(o, ast.GtE) and dv < yv <= 0 or isinstance(o, ast.Gt) and dv <= yv < 0:
+        return True
+    if isinstance(o, ast.Lt) and dv < yv <= 0 or isinstance(o, ast.LtE) and dv <= yv < 0:
+        return False
+    return None
+
+
+def _is_position(v):
+    """the term is the position of a field looked up by name (0 is a valid position), possibly merged with a not-found sentinel"""
+    if not isinstance(v, tuple) or not v:
+        return False
+    if v[0] in ("POSQ", "NIDX", "WIDX"):
+        return True
+    if v[0] == "FIRST":
+        return v[1][0] == "WIDX"
+    if v[0] in ("PHI", "OPT", "DFLT"):
+        return any(_is_position(x) for x in v[1:] if isinstance(x, tuple))
+    return False
 
 
 # --------------------------------------------------------------------------------------------------------------------
@@ -1114,6 +1253,7 @@ def common(chk, repo, eng, fi):
         bad = v is not None and not good and any(x[0] == "ALLOC" for x in _subterms(v) if isinstance(x, tuple) and x) and v[0] in ("ITEM", "SLICE")
         chk.ob("R07.fresh", q + "::returns-the-allocation", _tri(good, bad), fi.where(n.ast),
                "the allocated array is what is returned (returned: %s)" % (_show(v) if v is not None else it.failed))
+    _lookup_rule(chk, fi, it)
     return it, (allocs[0] if allocs else None)
 
 
@@ -1127,7 +1267,13 @@ def _g(e, pred):
 
 def _no_field_left(it, alloc):
     dt = alloc.d["dtype"] if alloc is not None else None
-    return any(_g(e, lambda g: g.cond == ("TRUE", dt) and not g.pol) for e in _raises(it)) if dt is not None else False
+    if dt is None:
+        return False
+    strict_only = lambda e: _g(e, lambda g: g.cond == ("TRUE", ("P", "strict")) and g.pol)  # noqa: E731
+    if any(_g(e, lambda g: g.cond == ("TRUE", dt) and not g.pol) and not strict_only(e) for e in _raises(it)):
+        return True
+    # the same test written on an equal count (a counter, any(), a second list over the same selection)
+    return alloc.d["segs"] is not None and any(_rejects_empty(it, alloc, e, None) for e in _raises(it))
 
 
 def _missing_strict(it, fi, F, pname, strict_name="strict"):
@@ -1148,6 +1294,244 @@ def _missing_strict(it, fi, F, pname, strict_name="strict"):
                         if h.cond[0] == "IN" and h.cond[2] == ("NAMES", F) and not h.pol and h.cond[1] == s.elem and s.elem[0] == "ELEM" and _param_of(s.elem[1]) == pname:
                             return True
     return False
+
+
+def _deps(it, t, seen=None):
+    """what a term is computed from: ('P', name) the caller's argument name, ('F', name) the field list (dtype) of that argument,
+    'opaque' something the evaluator does not model (the term may then depend on anything)"""
+    out = set()
+    seen = set() if seen is None else seen
+
+    def of_guards(gs):
+        for g in gs:
+            walk(g.cond)
+
+    def of_segs(segs):
+        for sg in segs:
+            for lp in sg.loops:
+                walk(lp.src)
+            of_guards(sg.guards)
+            walk(sg.elem)
+
+    def walk(x):
+        if isinstance(x, _Loop):
+            walk(x.src)
+            return
+        if isinstance(x, _Guard):
+            walk(x.cond)
+            return
+        if not isinstance(x, tuple) or not x:
+            return
+        h = x[0]
+        if not isinstance(h, str):
+            for y in x:
+                walk(y)
+            return
+        if h == "P" and len(x) == 2:
+            out.add(("P", x[1]))
+        elif h in ("DT",) and len(x) == 2 and isinstance(x[1], tuple) and x[1][:1] == ("P",):
+            out.add(("F", x[1][1]))
+        elif h in ("LIST", "DICT"):
+            if ("H", x[1]) not in seen:
+                seen.add(("H", x[1]))
+                of_segs(it.heap.get(x[1], []))
+        elif h == "CNT":
+            if ("CNT", x[1]) not in seen:
+                seen.add(("CNT", x[1]))
+                for e in it.of("incr"):
+                    if e.d["name"] == x[1]:
+                        of_guards(e.guards)
+                        for lp in e.loops:
+                            walk(lp.src)
+                        walk(e.d["value"])
+        elif h in ("X", "EXISTS", "SOME", "NOTALL", "TAINT"):
+            out.add("opaque")
+        elif h == "ALLOC":
+            if ("A", x[1]) not in seen:
+                seen.add(("A", x[1]))
+                for e in it.of("alloc"):
+                    if e.d["tag"] == x:
+                        walk(e.d["dtype"])
+                        walk(e.d["shape"])
+        elif h in ("K", "IDXOF") and len(x) == 2 and x[1] in it.loops:
+            if ("L", x[1]) not in seen:
+                seen.add(("L", x[1]))
+                walk(it.loops[x[1]].src)
+        elif h in ("C", "G", "MAYRET", "MAYBREAK", "MAYSKIP"):
+            return
+        else:
+            if h in ("ELEM", "IDX") and isinstance(x[-1], int) and x[-1] in it.loops and ("L", x[-1]) not in seen:
+                seen.add(("L", x[-1]))
+                walk(it.loops[x[-1]].src)
+            for y in x[1:]:
+                walk(y)
+    walk(t)
+    return out
+
+
+def _event_deps(it, e):
+    d = set()
+    for g in e.guards:
+        d |= _deps(it, g.cond)
+    for lp in e.loops:
+        d |= _deps(it, lp.src)
+    return d
+
+
+def _canon(t, ids):
+    """the term with the loops of `ids` named by their position (two selections written with different loops compare equal)"""
+    if isinstance(t, tuple):
+        if t and t[0] in ("C", "ALLOC", "LIST", "DICT"):
+            return t
+        return tuple(_canon(x, ids) for x in t)
+    if isinstance(t, int) and not isinstance(t, bool) and t in ids:
+        return "L%d" % ids[t]
+    return t
+
+
+def _selection(loops, guards, extra=()):
+    """(what is walked, the tests an iteration must pass) in canonical form, or None when a loop may stop early"""
+    if any(lp.broken for lp in loops):
+        return None
+    ids = {lp.id: i for i, lp in enumerate(loops)}
+    srcs = tuple(_canon(("NAMES", lp.src[1]) if lp.src[0] in ("DESCR", "NAMES", "MAP", "RANGE") else lp.src, ids) for lp in loops)
+
+    def cn(c):
+        # the name of the visited entry is the visited name
+        return _canon(c, ids)
+    return srcs, frozenset((repr(cn(c)), bool(p)) for c, p in [(g.cond, g.pol) for g in guards] + list(extra))
+
+
+def _same_count(it, t, pol, segs, ctx):
+    """the guard `t holds with polarity pol` says that the selection `segs` (the new field list) is empty: t is a list / a count /
+    an any() over the same iterations under the same tests"""
+    want = [_selection(sg.loops, _filters(sg.guards)) for sg in segs]
+    if any(w is None for w in want):
+        return False
+
+    def own(gs):
+        return [g for g in _filters(gs) if not any(g is h for h in ctx)]
+    got = None
+    if t[0] == "TRUE" and not pol:
+        v = t[1]
+        fn = None
+        if v[0] == "CALL" and v[1] in ("any", "sum", "len", "bool", "count_nonzero") and len(v[2]) == 1:
+            fn, v = v[1], v[2][0]
+        if v[0] == "LIST":
+            got = []
+            for sg in it.heap.get(v[1], []):
+                extra = ()
+                if fn in ("any", "count_nonzero") or (fn == "sum" and sg.elem[0] == "COND"):
+                    if sg.elem[0] != "COND":
+                        return False
+                    extra = ((sg.elem[1], sg.elem[2]),)
+                elif fn == "sum" and not (sg.elem[0] == "C" and sg.elem[1] in (1, True)):
+                    return False
+                got.append(_selection(sg.loops, _filters(sg.guards), extra))
+    elif t[0] == "EQ" and pol and ("C", 0) in t[1:]:
+        c = [x for x in t[1:] if x[0] == "CNT"]
+        if len(c) == 1:
+            incs = [e for e in it.of("incr") if e.d["name"] == c[0][1]]
+            if incs and all(e.d["op"] == "Add" and e.d["value"] == ("C", 1) for e in incs) and incs[0].d["before"] == ("C", 0):
+                got = [_selection(e.loops, own(e.guards)) for e in incs]
+    if got is None or any(g is None for g in got):
+        return False
+    return sorted(map(repr, got)) == sorted(map(repr, want))
+
+
+def _can_be_empty(it, segs, arr, pname):
+    """every part of the new field list is a selection that depends on the request (it can select nothing)"""
+    if not segs:
+        return False
+    for sg in segs:
+        if sg.elem[0] == "TAINT":
+            return False
+        d = set()
+        for g in _filters(sg.guards):
+            d |= _deps(it, g.cond)
+        for lp in sg.loops:
+            d |= _deps(it, lp.src)
+        if ("P", pname) not in d or "opaque" in d:
+            return False
+    return True
+
+
+def _rejects_empty(it, alloc, e, strict):
+    """the raise e is reached whenever the allocation would be reached with an empty field list: one of its guards says `the new
+    field list is empty` (tested on the list itself or on an equal count) and every other guard holds on the way to the allocation too"""
+    dt, segs = alloc.d["dtype"], alloc.d["segs"]
+    ctx = tuple(alloc.guards)
+    for g in e.guards:
+        if g.cond == ("TRUE", dt) and not g.pol or _same_count(it, g.cond, g.pol, segs, tuple(e.guards) + ctx):
+            rest = [h for h in e.guards if h is not g and h.kind != "reject"]
+            if all(any(h is k or (h.cond == k.cond and h.pol == k.pol) for k in ctx) for h in rest) and not e.loops:
+                return True
+    return False
+
+
+def _empty_result_rejected(chk, fi, it, alloc, pname, what):
+    """R07.nonempty: whether the selection is empty depends on BOTH the request and the array's field names (a non-empty request can
+    match no field; a removal list can cover every field).  So on every path that reaches the allocation some raise must be
+    controlled by a test that depends on both.  True: the raise tests the new field list itself; False: no raise that can be
+    reached (outside strict-only code) depends on both, so the empty result cannot be rejected for all inputs; None otherwise"""
+    q = fi.qualname
+    arr = fi.params[0]
+    segs = alloc.d["segs"] if alloc is not None else None
+    strict = "strict" if "strict" in fi.params else None
+    ok, why = None, ""
+    if it.failed is not None or segs is None:
+        why = it.failed or "the new field list was not recognised"
+    elif any(_rejects_empty(it, alloc, e, strict) for e in _raises(it)):
+        ok = True
+    elif not _can_be_empty(it, segs, arr, pname):
+        why = "the new field list is not recognised as a selection by the request: %s" % _seg_text(segs)
+    else:
+        cands, seen = [], []
+        for e in _raises(it):
+            if strict is not None and _g(e, lambda g: g.cond == ("TRUE", ("P", strict)) and g.pol):
+                seen.append("line %s: only in strict mode" % getattr(e.node, "lineno", "?"))
+                continue
+            d = _event_deps(it, e)
+            if "opaque" in d or (("F", arr) in d and ("P", pname) in d):
+                cands.append(e)
+            else:
+                seen.append("line %s: controlled by %s, which does not depend on %s" % (
+                    getattr(e.node, "lineno", "?"), [g for g in e.guards] or "nothing",
+                    "the array's field names" if ("F", arr) not in d else "the request"))
+        hidden = [o for o in it.opaque if {("F", arr), ("P", pname)} <= set().union(*[_deps(it, a) for a in o[1]] or [set()])
+                  or any("opaque" in _deps(it, a) for a in o[1])]
+        if cands or hidden or it.asserts:
+            why = "a rejection in a form that is not recognised: %s" % ([getattr(e.node, "lineno", "?") for e in cands] or [o[0] for o in hidden] or "assert")
+        else:
+            ok = False
+            why = ("whether %s depends on the request AND on the array's field names, but no raise reachable%s is controlled by a test of both "
+                   "(%s): a request that %s is not rejected and a zero-field array is returned"
+                   % (what, " with strict=False" if strict else "", "; ".join(seen) or "there is no raise", "matches no field" if strict else "leaves no field"))
+    chk.ob("R07.nonempty", q + "::empty-selection-rejected", ok, _where(fi, alloc) if alloc is not None else fi.where(),
+           "a request that leaves no field is rejected on every path to the allocation%s" % (": " + why if why else ""))
+
+
+def _lookup_rule(chk, fi, it):
+    """R07.lookup: the position of a field (dict name->index .get, names.index, np.where(names == name)[0]) is a number that is 0 for
+    the first field; deciding found / not found by its truth value (or `> 0`) treats the first field as missing"""
+    q = fi.qualname
+    bad = it.postests
+    ok = False if bad else (True if it.failed is None else None)
+    msg = "no field position is used as a found/not-found flag"
+    if bad:
+        v, how, site = bad[0]
+        pos = [x for x in _subterms(v) if isinstance(x, tuple) and x and x[0] in ("POSQ", "NIDX", "WIDX")]
+        kind = {"POSQ": "<dict name -> position>.get(%s)", "NIDX": "<names>.index(%s)", "WIDX": "where(<names> == %s)"}
+        if pos:
+            inner = pos[0][2]
+            while isinstance(inner, tuple) and inner and inner[0] == "ELEM":
+                inner = inner[1]
+            v = ("X:" + kind[pos[0][0]] % ("<element of %s>" % _param_of(inner) if _param_of(inner) else "<name>"),)
+        msg = ("the position of a field looked up by name, `%s`, is %s to decide whether the field exists: position 0 (the array's first field) "
+               "is a valid position and counts as not found" % (v[0][2:] if v[0].startswith("X:") else _show(v), how))
+        chk.ob("R07.lookup", q + "::position-not-used-as-flag", False, fi.where(site) if site is not None else fi.where(), msg)
+    else:
+        chk.ob("R07.lookup", q + "::position-not-used-as-flag", ok, fi.where(), msg + ("" if ok else " (%s)" % it.failed))
 
 
 def _seg_text(segs):
@@ -1185,6 +1569,7 @@ def extract(chk, repo, fi, it, alloc):
                   "name-is-entry[0]", "the tested name is the entry's own name")
     chk.ob("R07.reject", q + "::missing-name-strict", _missing_strict(it, fi, F, fi.params[1]), fi.where(), "strict mode rejects a requested name that is not a field")
     chk.ob("R07.reject", q + "::no-field-left", _no_field_left(it, alloc), fi.where(), "an empty result is rejected")
+    _empty_result_rejected(chk, fi, it, alloc, fi.params[1], "any requested name is a field")
     # every use of the names argument as a collection (iteration, membership test, conversion) sees the wrapped value
     pname = fi.params[1]
     seqs = {"tuple", "list", "ndarray", "set", "frozenset"}
@@ -1209,6 +1594,7 @@ def remove(chk, repo, fi, it, alloc):
               "removal walks the original descr in order and keeps the unmodified entry when its name is not listed",
               "descr-is-input-descr", "the walked descr is arr.dtype.descr")
     chk.ob("R07.reject", q + "::no-field-left", _no_field_left(it, alloc), fi.where(), "removing every field is rejected")
+    _empty_result_rejected(chk, fi, it, alloc, fi.params[1], "any field is left")
     for u, _ in it.uses:
         if _param_of(u) == fi.params[1] and u[0] == "NORM" and u[2] == "unless" and not {"tuple", "ndarray"} <= set(u[3]):
             chk.observe("R07.args", fi.where(), "remove_fields wraps anything that is not a list: a tuple/array of names is treated as one name and "
@@ -1380,6 +1766,7 @@ def copiers(chk, repo):
     chk.analysed_unit(fi.qualname)
     q = fi.qualname
     it = interp(repo, fi)
+    _lookup_rule(chk, fi, it)
     src, dst = ("P", fi.params[0]), ("P", fi.params[1])
     F1, F2 = ("DT", src), ("DT", dst)
     stores = []
@@ -1446,6 +1833,7 @@ def copiers(chk, repo):
     chk.analysed_unit(fi.qualname)
     q = fi.qualname
     it = interp(repo, fi)
+    _lookup_rule(chk, fi, it)
     arr, pn, pv = ("P", fi.params[0]), fi.params[1], fi.params[2]
     stores = [e for e in it.of("store") if e.d["base"] == arr]
     good = bad = False
